@@ -322,8 +322,17 @@ def install_hooks():
 	_hooks_installed = True
 
 
+class NonFiniteStateVariable(ValueError):
+	"""The simulator reported nan or inf where a number of units, a rate or a cost is documented."""
+
+
 def fv(x):
-	return F(float(x)) if not isinstance(x, bool) else x
+	if isinstance(x, bool):
+		return x
+	import math
+	if not math.isfinite(float(x)):
+		raise NonFiniteStateVariable('a reported state variable is %r (not a number of units, a ratio or a cost)' % (x,))
+	return F(float(x))
 
 
 def dump_py(spec, net, objs, T, relabel=None):
